@@ -74,6 +74,10 @@ def timing_scenarios(tier):
     dp = chain(("T", Task("f1", TimeoutSecondsPath="$.limits.t")), Z)
     two("task-timeoutpath-slow-worker", dp, inp={"limits": {"t": 3}}, workers={"f1": {"*": [["delay", ["ok", {"r": 1}]]]}})
     two("task-timeoutpath-never", dp, inp={"limits": {"t": 3}}, workers={"f1": {"*": NONE}}, budget=1)
+    # a waitForTaskToken task whose worker answers the request itself (that answer is ignored) and whose callback never comes
+    dtok = chain(("T", {"Type": "Task", "Resource": "arn:aws:states:local::rpcmessage:invoke.waitForTaskToken", "TimeoutSeconds": 3,
+                        "Parameters": {"FunctionName": "arn:aws:rpcmessage:local::function:f1", "Payload": {"token.$": "$$.Task.Token"}}}), Z)
+    two("task-token-timeout-after-ignored-reply", dtok, workers={"f1": {"*": [["delay", ["ok", {"ignored": True}]]]}})
     # a Task retried with a growing back-off: every attempt measures its TimeoutSeconds from its own (delayed) dispatch instant
     d = chain(("T", Task("f1", TimeoutSeconds=4, Retry=[{"ErrorEquals": ["E1"], "IntervalSeconds": 2, "BackoffRate": 2.0, "MaxAttempts": 3}])), Z)
     two("task-timeout-after-backoff-retries", d, workers={"f1": {"*": [["err", "E1", "x"], ["err", "E1", "x"], ["delay", ["ok", {"r": 3}]]]}}, budget=1)
